@@ -470,7 +470,8 @@ namespace nmtools::index
             }();
             auto s = compute_range(shape_i,start,stop,step);
             auto step_ = compute_step(step);
-            return static_cast<size_type>(math::constexpr_ceil(static_cast<float>(s) / step_));
+            // integer ceiling (exact for every extent, no float / int round trip)
+            return static_cast<size_type>((s + step_ - 1) / step_);
         };
 
         auto res = result_t {};
@@ -988,8 +989,8 @@ namespace nmtools::index
 
                 // finally the resulting shape for corresponding indices
                 // is simply the range divided by the step
-                // use constexpr_ceil to allow clang compile this
-                at(res,r_i++) = static_cast<size_type>(math::constexpr_ceil(static_cast<float>(s) / step));
+                // integer ceiling (exact for every extent, no float / int round trip)
+                at(res,r_i++) = static_cast<size_type>((s + step - 1) / step);
             } else /* if constexpr (meta::is_index_v<slice_t>) */ {
                 // only reduce the dimension,
                 // doesn't contributes to shape computation
